@@ -378,7 +378,11 @@ func (g *Generator) generateFlattenedUnmarshal(
 
 	// Add the variant back to raw under its original field name for protojson
 	// (protojson expects the oneof wrapper format)
-	gf.P(`raw["`, fieldJSONName, `"], _ = protojson.Marshal(variant)`)
+	gf.P("variantBack, backErr := protojson.Marshal(variant)")
+	gf.P("if backErr != nil {")
+	gf.P(`return fmt.Errorf("failed to re-encode variant %s: %w", "`, fieldGoName, `", backErr)`)
+	gf.P("}")
+	gf.P(`raw["`, fieldJSONName, `"] = variantBack`)
 }
 
 // generateNestedUnmarshal generates non-flattened unmarshal code for a message variant.
